@@ -49,6 +49,7 @@ type VCluster struct {
 	watches       []*filterWatch
 	WatchesOpened int
 	listHook      atomic.Pointer[func(resource, namespace string)]
+	listFault     atomic.Pointer[func(resource, namespace string) error]
 	stalled       atomic.Bool // while set, open watches deliver nothing (an outage that ends with ExpireWatches)
 }
 
@@ -60,6 +61,16 @@ func (vc *VCluster) OnList(f func(resource, namespace string)) {
 		return
 	}
 	vc.listHook.Store(&f)
+}
+
+// FailList installs a function asked at every list request of the dynamic client; a non-nil error is
+// returned to the caller instead of the list (a transient API failure). It must not block. nil removes it.
+func (vc *VCluster) FailList(f func(resource, namespace string) error) {
+	if f == nil {
+		vc.listFault.Store(nil)
+		return
+	}
+	vc.listFault.Store(&f)
 }
 
 // StallWatches makes every open watch silently drop what happens in the cluster (on=true) until it is
@@ -101,6 +112,11 @@ func NewVCluster() *VCluster {
 	dyn.PrependReactor("list", "*", func(action clienttesting.Action) (bool, runtime.Object, error) {
 		if f := vc.listHook.Load(); f != nil {
 			(*f)(action.GetResource().Resource, action.GetNamespace())
+		}
+		if f := vc.listFault.Load(); f != nil {
+			if err := (*f)(action.GetResource().Resource, action.GetNamespace()); err != nil {
+				return true, nil, err
+			}
 		}
 		return false, nil, nil
 	})
